@@ -5,22 +5,66 @@ import json, os
 V = os.path.dirname(os.path.abspath(__file__))
 
 CLAIMED = {
- "C03": dict(cat="model_checking", ref="DESIGN.md section 5 C03",
-   text="Bounded model checking (Kani/CBMC) of process_into_buffer of the four asynchronous resamplers through the public API: concrete construction and warm-up history, then a ratio change with EVERY accepted f64 (quick: D_full for Nearest/Linear fixed-output, k/32 grid elsewhere) and ramp on/off, then a call with caller buffers of symbolic surplus length; every CBMC memory-safety, unsafe-precondition, overflow and panic check must hold and the call must return Ok. Sinc types run the real position logic against a probing interpolator that asserts the kernel contract.",
-   note="bounds per harness in the evidence (chunk 2-3, max_rel 2-3, 1 channel, histories of warm-up + 1 symbolic step); histories and sizes beyond them, AVX/SSE kernel bodies (decided under C15) and the real FFT are outside; Kani lowering/CBMC/CaDiCaL trusted",
-   technique="bounded model checking of compiled code (Kani/CBMC SAT, bit-precise floats), counterexamples replayed natively"),
- "C04": dict(cat="model_checking", ref="DESIGN.md section 5 C04",
-   text="Same solver runs as C03 with the frame-count monitors: next<=max before every call, consumed == input_frames_next, written <= / == output_frames_next, returned count == frames actually written (sentinel oracle over the caller's backing array), nothing written beyond the advertised count.",
-   note="as C03; sentinel oracle assumes the resampler never writes the sentinel value itself (index-signal input is non-negative)",
+ "C03": dict(cat="model_checking", ref="DESIGN.md sections 5 C03, 11",
+   text="Bounded model checking (Kani/CBMC) of the asynchronous resamplers through the public API: concrete construction and warm-up, then a ratio change with EVERY accepted f64 (D_full for Nearest/Linear fixed-output; k/32 grid for multi-frame fixed-input loops and blending degrees in the quick tier) and ramp on/off, then a call with caller buffers of symbolic surplus length; histories with reset(), three successive changes, oversampling factor 1; every CBMC memory-safety / unsafe-precondition / overflow / panic check must hold and calls must return Ok. Sinc types run the real position logic against a probing interpolator asserting the kernel contract; the callee-side contract of get_nearest_time(s_2/3/4) is decided bit-precisely for all |t|<2^20, factor<=2048 on the MIR (mirsym+z3).",
+   note="bounds per harness in evidence (chunk 2-3, max_rel 2-3, 1 channel, warm-up + 1 symbolic step; 2 symbolic steps thorough only); AVX/SSE kernel bodies are decided under C15, FFT bookkeeping under C04/C07 with a stub FFT; recorded findings: F-OS1 (oversampling 1 with Quadratic/Cubic); leaf note: t in [-2^-54,0) excluded (no reaching history known)",
+   technique="bounded model checking of compiled code (Kani/CBMC SAT) + SMT (z3 FP) over symbolic execution of MIR for the leaf contract"),
+ "C04": dict(cat="model_checking", ref="DESIGN.md sections 5 C04, 11",
+   text="Frame-count monitors on the C03 runs and on the synchronous (FFT) step family: next<=max before and after every call, consumed == input_frames_next, written <= / == output_frames_next, returned count == frames actually written (sentinel oracle over the caller's backing array), nothing written beyond the advertised count; FFT types: concrete rate/chunk/sub-chunk configurations incl. chunk = multiple of the block, block larger than the chunk, chunk smaller than the block.",
+   note="as C03; sentinel oracle assumes the resampler never writes the sentinel value itself; FFT is a stub (block bookkeeping only)",
    technique="bounded model checking of compiled code (Kani/CBMC SAT) with sentinel-buffer oracle"),
- "C13": dict(cat="model_checking", ref="DESIGN.md section 5 C13",
-   text="Shapes are symbolic: number of input/output slices, every slice length, mask presence/length/content; for all seven types the result must be Ok iff the shape is valid, otherwise the ResampleError of SOME violated condition with that condition's expected/actual/channel values (no check order assumed), no panic, nothing written, getters unchanged and a following valid call equal to a twin's. Constructors: every non-NaN f64 ratio/max (size-independent types), concrete offending values elsewhere.",
-   note="2 channels, chunk 2-3, fresh state (+1 history point in thorough); FFT planner stubbed; untagged panics/bounds failures in these harnesses count as C13 violations",
+ "C05": dict(cat="model_checking", ref="DESIGN.md sections 5 C05, 11",
+   text="Two instances fed the same stream in different chunkings / FixedIn vs FixedOut / FFT variants with the same block: common output prefix bit-identical, for EVERY finite input signal where the kernel is copy-only (Nearest; symbolic samples), index signal elsewhere; set_chunk_size in mid-stream with symbolic new size: strict probe (every window on supplied line data) and uniform instants.",
+   note="concrete ratios (0.75, 1, 1.5), chunk sizes <= 8, prefixes of 6-8 frames; numerical agreement of blending kernels across chunkings follows from equal instants+windows (not separately checked)",
+   technique="bounded model checking of compiled code (Kani/CBMC SAT), twin instances, symbolic signal"),
+ "C06": dict(cat="model_checking", ref="DESIGN.md sections 5 C06, 11",
+   text="Index-signal observation: with Linear interpolation every output value IS its evaluation instant. After 2 warm-up calls a ratio change (k/32 grid quick, every f64 thorough; ramp symbolic) and the following chunk: instants strictly increasing, spacing within [1/old,1/new], stepped change immediate, ramp monotone, every read window inside supplied input (probe checks each tap on the line); the chunk after a ramp runs at exactly 1/new.",
+   note="FastFixedOut and SincFixedOut(+Probe(8,2)) chunk 3 in the quick tier, FixedIn types and chunk 20 thorough; recorded finding F6 (region ramp_pending_sinc: input need from mean ratio vs advance by mean reciprocal); tolerance 2^-36 on instants",
+   technique="bounded model checking of compiled code (Kani/CBMC SAT) with index-signal observation and probing interpolator"),
+ "C07": dict(cat="model_checking", ref="DESIGN.md sections 5 C07, 11",
+   text="State bound that implies no drift, on explored prefixes: constant ratio (symbolic, set once): spacing across chunk boundaries equals 1/r and the lag supplied-minus-evaluated stays within filter+1/r+3 (FastFixedOut; FastFixedIn at slow ratios 1/r>7); synchronous types: 0 <= in*rate_out - out*rate_in < one block after every call (== 0 for FixedInOut), FixedInOut block sizes exact/smallest, for concrete configurations incl. block > chunk.",
+   note="prefixes of 2-6 calls; the inductive extension to unbounded streams is NOT claimed (would need injected states); FFT stub",
+   technique="bounded model checking of compiled code (Kani/CBMC SAT), index-signal observation, integer accounting"),
+ "C08": dict(cat="other", ref="DESIGN.md sections 5 C08, 11",
+   text="(a) mirsym executes the MIR of interp_septic/quintic/cubic/lin (and the sinc-side cubic/quad/lin) with T := Real and z3+cvc5 decide exactness for ALL real x and ALL polynomials of admissible degree (unsat of the negation; cvc5 cross-check on basis+linearity). (b) Kani: window selection and uniform instants: frame j is evaluated at -4+(j+1)/ratio (FastFixedOut symbolic ratio; FastFixedIn Quintic/Septic/Cubic at concrete non-integer ratios).",
+   note="real-number reading of generic T (assumption A-round bridges to floats); (b) bounded to 2-3 calls, chunk <= 8",
+   technique="SMT (z3 nlsat + cvc5) over symbolic execution of rustc MIR; bounded model checking (Kani) for window selection"),
+ "C09": dict(cat="model_checking", ref="DESIGN.md sections 5 C09, 11",
+   text="The global allocator entry points are stubbed by asserting wrappers; one real-time section per harness covers getters, process_into_buffer (plain, masked, all-masked, after a ramped change, after set_chunk_size to a different size, after reset, error path with malformed input), both setters with EVERY f64, set_chunk_size with every usize; all seven types.",
+   note="2 channels, chunk 2-4; allocations inside the real realfft are outside (stub allocates exactly where realfft's scratch-less process() would); log feature off",
+   technique="bounded model checking of compiled code (Kani/CBMC SAT) with allocator stubs"),
+ "C10": dict(cat="model_checking", ref="DESIGN.md sections 5 C10, 11",
+   text="Instance A gets a dirtying history (ratio changes stepped/ramped/pending, set_chunk_size, failed call; FFT: 1-2 calls), reset(); then all getters and the following calls are compared bit-exactly with a fresh twin; constructor-vs-reset input need for EVERY constructor ratio in [0.5,2] (symbolic constructor).",
+   note="quick-tier histories are concrete (symbolic ones thorough); 1 channel, 1-2 post-reset calls",
+   technique="bounded model checking of compiled code (Kani/CBMC SAT), twin instances"),
+ "C11": dict(cat="model_checking", ref="DESIGN.md sections 5 C11, 11",
+   text="A 2-channel instance against a single-channel twin standing for one channel: symbolic mask (None / Some[m0,m1], all-false included, inactive channels passed empty slices), symbolic finite samples through copy-only kernels or distinct index lines: active channel bit-equal to the twin, masked outputs untouched (sentinel), counts and getters equal.",
+   note="2 channels, 1 call (FixedInOut 2 calls), all seven types",
+   technique="bounded model checking of compiled code (Kani/CBMC SAT), twin instances, symbolic mask and data"),
+ "C12": dict(cat="model_checking", ref="DESIGN.md sections 5 C12, 11",
+   text="Bit-precise: for concrete (original,max) pairs and EVERY f64 argument acceptance of both setters equals the documented predicate on all four asynchronous types, rejections carry the right payload and change nothing, relative == absolute(original*x) on getters; sync types never adjustable; set_chunk_size: every usize, twice in a row; cross-checked by a second encoding (mirsym, z3 FP) of the setter MIR with SYMBOLIC original/max.",
+   note="quick tier fixes (original,max) to awkward pairs for Kani; symbolic original/max in the Kani thorough tier and in the mirsym cross-check; the one-ulp sliver where the two clauses of the property disagree is excluded",
+   technique="bounded model checking of compiled code (Kani/CBMC SAT, IEEE-754) + SMT (z3 FP) over symbolic execution of MIR"),
+ "C13": dict(cat="model_checking", ref="DESIGN.md sections 5 C13, 11",
+   text="Shapes are symbolic: number of input/output slices, every slice length, mask presence/length/content; result must be Ok iff the shape is valid, otherwise the error of SOME violated condition with its values (no order assumed), no panic, nothing written, getters unchanged, a following valid call equal to a twin's (also after history); constructors: every non-NaN f64 ratio/max, zero sample rates.",
+   note="2 channels, chunk 1-3; FFT planner stubbed; untagged panics count as C13 violations",
    technique="bounded model checking of compiled code (Kani/CBMC SAT) over symbolic buffer shapes"),
- "C12": dict(cat="model_checking", ref="DESIGN.md section 5 C12",
-   text="Bit-precise bounded model checking (Kani/CBMC) of the four asynchronous setters, the synchronous stubs and set_chunk_size through the public API: for concrete (original,max) pairs and EVERY f64 argument (NaN, infinities, subnormals, exact bounds and their neighbours) acceptance equals the documented predicate, rejections carry the right payload and change nothing; chunk sizes: every usize. Thorough adds symbolic original/max.",
-   note="Kani MIR->goto lowering, CBMC float encoding, CaDiCaL; FFT planner stubbed for the sync types; quick tier fixes (original,max) to 7 awkward pairs; one-ulp sliver where the two clauses of the property disagree is excluded from the relative==absolute comparison",
-   technique="bounded model checking of compiled code (Kani/CBMC SAT, bit-precise IEEE-754), counterexamples replayed natively"),
+ "C14": dict(cat="model_checking", ref="DESIGN.md sections 5 C14, 11",
+   text="Index-signal observation: for every frame inside the stream |j - (tau_j*ratio + output_delay())| <= max(1,ratio)+1 with the ratio symbolic (every accepted f64) on FastFixedOut; SincFixedOut with the probe (window centre) - recorded finding F8 (reported sinc_len*ratio/2, measured ~0, confirmed natively).",
+   note="FFT types outside (delay is a property of the real FFT filter; the stub has none); FastFixedIn shares the start position checked under C08(b)",
+   technique="bounded model checking of compiled code (Kani/CBMC SAT) with index-signal observation"),
+ "C15": dict(cat="other", ref="DESIGN.md sections 5 C15, 11",
+   text="mirsym executes the MIR of pack_sincs + get_sinc_interpolated(_unsafe) of the AVX/SSE f32/f64 kernels and of the scalar kernel on symbolic waves and tables (T := Real, intrinsics modelled lane-wise): result == plain dot product (z3+cvc5 unsat), logged read footprint == [index,index+len), no access outside the allocations; dispatch: make_interpolator and the three ::new pass identical argument tuples to make_sincs.",
+   note="len in {8,16,24(,32,40)}, index in {0,(1,)5}, sub in {0,f-1}; NEON not compiled on this host; rounding differences are summation-order only (A-round)",
+   technique="SMT (z3 + cvc5) over symbolic execution of rustc MIR with intrinsic models"),
+ "C16": dict(cat="model_checking", ref="DESIGN.md sections 5 C16, 11",
+   text="Twin instances: process() vs process_into_buffer (symbolic mask, empty slices for masked channels, truncation), process_partial_into_buffer(Some) with independent symbolic partial lengths per channel vs zero-padded input, None vs all-zero chunks twice, process_partial vs the buffer variant, and Box<dyn VecResampler> vs the concrete type for every forwarded method (setter arguments: every f64).",
+   note="2 channels, chunk 2-6, FastFixedOut / SincFixedIn / FFT representatives",
+   technique="bounded model checking of compiled code (Kani/CBMC SAT), twin instances"),
+ "C17": dict(cat="model_checking", ref="DESIGN.md sections 5 C17, 11",
+   text="f32/f64 twins with the same symbolic schedule (ratio: every accepted f64 on fixed-output, k/32 on fixed-input; ramp): all getters, setter results and returned counts equal; copy-only kernels: out32 == (out64 as f32) exactly; real constructors (table generation) size everything alike for both sample types.",
+   note="numeric closeness of Cubic/Quintic/Septic/sinc/FFT kernels is NOT claimed (error analysis beyond SAT)",
+   technique="bounded model checking of compiled code (Kani/CBMC SAT), twin instances"),
 }
 
 NOT_APPLICABLE = [
@@ -41,7 +85,7 @@ def main():
                 thorough_cmd="./rv check %s --tier thorough" % p,
                 evidence_file="evidence/%s.json" % p,
                 replay_cmd_template="./rv replay {path}",
-                engine=c.get("engine", "kani-harness-crate"),
+                engine=c.get("engine", "mirsym" if p == "C15" else "kani-harness-crate"),
                 level_claimed=dict(category=c["cat"], text=c["text"], design_ref=c["ref"]),
                 level_note=c["note"],
                 technique=c["technique"],
